@@ -244,6 +244,12 @@ size_t varintFloatEncode(uint8_t *output, const double *values,
             } else {
                 /* Reduced precision: truncate from 53 bits to target */
                 mantissas[i] = truncateMantissa(mantissas[i], 53, mant_bits);
+                if (mantissas[i] >> mant_bits) {
+                    /* Rounding carried out of the field (1.111..1 -> 10.00):
+                     * renormalise to 1.000 x 2^(exponent + 1) */
+                    mantissas[i] >>= 1;
+                    exponents[i]++;
+                }
             }
         }
     }
